@@ -796,3 +796,71 @@ func PopCount64(x *Term) *Term {
 	return r
 }
 
+
+// Subst replaces variables by constants and re-simplifies.
+func Subst(t *Term, pin map[string]uint64, memo map[*Term]*Term) *Term {
+	if t.Op == OConst {
+		return t
+	}
+	if r, ok := memo[t]; ok {
+		return r
+	}
+	var r *Term
+	if t.Op == OVar {
+		if v, ok := pin[t.Name]; ok {
+			if t.W == 0 {
+				r = B(v != 0)
+			} else {
+				r = C(t.W, v)
+			}
+		} else {
+			r = t
+		}
+		memo[t] = r
+		return r
+	}
+	var a [3]*Term
+	changed := false
+	for i, x := range t.A {
+		if x != nil {
+			a[i] = Subst(x, pin, memo)
+			if a[i] != x {
+				changed = true
+			}
+		}
+	}
+	if !changed {
+		memo[t] = t
+		return t
+	}
+	switch t.Op {
+	case ONot:
+		r = Not(a[0])
+	case OAnd:
+		r = And(a[0], a[1])
+	case OOr:
+		r = Or(a[0], a[1])
+	case OEq:
+		r = Eq(a[0], a[1])
+	case OIte:
+		r = Ite(a[0], a[1], a[2])
+	case OUlt, OUle, OSlt, OSle:
+		r = Cmp(t.Op, a[0], a[1])
+	case OBNot:
+		r = BNot(a[0])
+	case ONeg:
+		r = Neg(a[0])
+	case OConcat:
+		r = Concat(a[0], a[1])
+	case OExtract:
+		r = Extract(a[0], uint8(t.K>>8), uint8(t.K&0xff))
+	case OZExt:
+		r = ZExt(a[0], t.W)
+	case OSExt:
+		r = SExt(a[0], t.W)
+	default:
+		r = Bin(t.Op, a[0], a[1])
+	}
+	memo[t] = r
+	return r
+}
